@@ -136,8 +136,13 @@ def _run_history(idx, ver, ops):
                 break
         elif kind == "hb":
             ep = op[1]
-            payload = bytes(rnd.randrange(256) for _ in range(rnd.choice([0, 1, 16, 60])))
-            o = p.op(ep, conns[ep].write_heartbeat(bytearray(payload), 16 + rnd.randrange(4)))
+            # (-1: the whole message - type, length, payload, 16 bytes of padding - fills exactly one record)
+            plen = rnd.choice([0, 1, 16, 60, -1])
+            padlen = 16 + rnd.randrange(4)
+            if plen < 0:
+                plen, padlen = min(conns[ep].recordSize, int(conns[ep]._send_record_limit), 16384) - 3 - 16, 16
+            payload = bytes(rnd.randrange(256) for _ in range(plen))
+            o = p.op(ep, conns[ep].write_heartbeat(bytearray(payload), padlen))
             if not o.ok:
                 info["problems"].append("write_heartbeat raised " + o.describe())
                 break
